@@ -241,9 +241,9 @@ pub fn all() -> Vec<CheckDef> {
         },
         CheckDef {
             id: "C19",
-            run: run_c19,
-            replay: replay_c19,
-            rule: "histories of registrations, MODE +-i/+-o/+-O, repeated/failed OPER, default modes, renames, channel creation/destruction and endings (QUIT, drop, KILL) with LUSERS/ISON/USERHOST after every step; oracle = model counts and high-water mark, exact presence sets and flags; non-trivial = repeated OPER, a +-o/+-O toggle or an exit before a LUSERS; distinct by capped counts",
+            run: mbchecks::run_c19,
+            replay: mbchecks::replay_c19,
+            rule: "histories of registrations, MODE +-i/+-o/+-O, repeated/failed OPER, default modes, renames, channel creation/destruction and endings (QUIT, drop, KILL) with LUSERS/ISON/USERHOST after every step; oracle = model counts and high-water mark, exact presence sets and flags; non-trivial = repeated OPER, a +-o/+-O toggle or an exit before a LUSERS; distinct by capped counts; connection_slots: max_connections m in 1..5, random patterns of opening connections and ending served ones (drop, QUIT, register + half-close, 464 refusal, invalid UTF-8, over-long line, drop mid-line, drop after 433): with j open exactly min(j,m) are served (answer PING), the rest get EOF without a reply, and every ended connection frees its slot; non-trivial = pattern with an over-limit connection and a re-used slot",
             level: "exploration",
             assumptions: SIM_ASSUMPTIONS,
         },
